@@ -308,6 +308,15 @@ func c01Scenarios(tier string) []*Scenario {
 			},
 		})
 	}
+	// a counter first used while another goroutine first uses a gauge of the same scope, a pass alongside: scenario N
+	// "counter+gauge" of C09, judged here for the counter's sum
+	for _, sc := range c09Scenarios(tier) {
+		if strings.Contains(sc.Name, "counter+gauge") {
+			c := *sc
+			c.Property = "C01"
+			out = append(out, &c)
+		}
+	}
 	return out
 }
 
